@@ -717,7 +717,16 @@ namespace occa {
 
       bool finishedComment = false;
       while (!finishedComment && *fp.start != '\0') {
-        skipTo('*');
+        // A backslash doesn't escape anything inside a comment,
+        //   skipTo('*') would step over the * of \*/
+        while ((*fp.start != '\0') &&
+               (*fp.start != '*')) {
+          if (*fp.start == '\n') {
+            fp.lineStart = fp.start + 1;
+            ++fp.line;
+          }
+          ++fp.start;
+        }
         if (*fp.start == '*') {
           ++fp.start;
           if (*fp.start == '/') {
